@@ -31,6 +31,8 @@ FWD = {'Mul': '__mul__', 'Div': '__truediv__', 'Add': '__add__', 'Sub': '__sub__
        'Eq': '__eq__', 'Ne': '__ne__', 'Xor': '__xor__', 'Or': '__or__'}
 REV = {'Mul': '__rmul__', 'Div': '__rtruediv__', 'Add': '__radd__', 'Sub': '__rsub__', 'Pow': '__rpow__', 'MatMul': '__rmatmul__',
        'Xor': '__rxor__', 'Or': '__ror__'}
+IOPS = {'Mul': operator.imul, 'Div': operator.itruediv, 'Add': operator.iadd, 'Sub': operator.isub, 'Pow': operator.ipow, 'MatMul': operator.imatmul}
+INP = {'Mul': '__imul__', 'Div': '__itruediv__', 'Add': '__iadd__', 'Sub': '__isub__', 'Pow': '__ipow__', 'MatMul': '__imatmul__'}
 NONOBJ = ['KFloat', 'KInt', 'KArr [3; 3]', 'KArr [4; 4]', 'KArr [3]']
 KINDS = ['Obj ' + n for n in NAMES] + NONOBJ
 LENGTHS = [1, 3]
@@ -48,7 +50,7 @@ def pyc_name(k):
 
 def reflect(ctx):
     """class hierarchy, method resolution tables and the class attributes read by the dispatch code, from the live classes"""
-    meths = [('Fwd ' + o, FWD[o]) for o in OPS] + [('Rev ' + o, REV[o]) for o in REV]
+    meths = [('Fwd ' + o, FWD[o]) for o in OPS] + [('Rev ' + o, REV[o]) for o in REV] + [('Inp ' + o, INP[o]) for o in INP]
     mro_lines, seen, dropped = [], {}, {}
     for c in CL:
         ks = []
@@ -60,11 +62,16 @@ def reflect(ctx):
                 ks.append(nm)
                 seen[nm] = k
         mro_lines.append(f"  | {c.__name__} => [{'; '.join(ks)}]")
-    # a class of some MRO that this model has no name for must not define any modelled method (fail closed)
-    for nm, k in dropped.items():
-        bad = [py for _, py in meths if py in k.__dict__]
-        if bad:
-            ctx.fail('gen:unknown-provider', f"class {nm} (in an MRO) defines {bad} but is not part of the model", {'class': nm, 'methods': bad}, no_input=True)
+    # a class that this model has no name for must not be the one that SUPPLIES a modelled method to a public class (fail closed);
+    # e.g. MutableSequence.__iadd__ is fine as long as a modelled class earlier in the MRO defines __iadd__
+    for c in CL:
+        for _, py in meths:
+            for k in c.__mro__:
+                if py in k.__dict__:
+                    if pyc_name(k) is None:
+                        ctx.fail('gen:unknown-provider', f"{c.__name__}.{py} is supplied by {k.__name__}, which is not part of the model",
+                                 {'class': c.__name__, 'method': py, 'provider': k.__name__}, no_input=True)
+                    break
     def_lines = []
     for nm in ['C ' + x for x in NAMES] + ['B ' + x for x in BASES.values()]:
         ms = [coq for coq, py in meths if nm in seen and py in seen[nm].__dict__]
@@ -205,15 +212,26 @@ def classify(res, l, r):
     return 'Other:' + t.__name__
 
 
-def observe(n, op, lk, rk, rng=None):
-    """run the real implementation on one cell; returns (abstract outcome, detail)"""
+def observe(n, op, lk, rk, rng=None, inplace=False):
+    """run the real implementation on one cell; returns (abstract outcome, detail).
+    inplace: evaluate  x op= y  (operator.i<op>); the outcome is the value x is rebound to, and the receiver must not have been
+    changed behind the back of that value"""
     l, r = make(lk, 0, n, rng), make(rk, 1, n, rng)
+    before = list(elems(l)) if type(l) in CL else None
     try:
         with np.errstate(all='ignore'):
-            res = OPS[op](l, r)
+            res = (IOPS if inplace else OPS)[op](l, r)
     except Exception as e:     # noqa: BLE001  the exception IS the observation
-        return 'Raise', f"{type(e).__name__}: {str(e)[:100]}"
-    return classify(res, l, r), type(res).__name__
+        out, detail = 'Raise', f"{type(e).__name__}: {str(e)[:100]}"
+    else:
+        out, detail = classify(res, l, r), type(res).__name__
+        if inplace and res is l and type(l) in CL and out.endswith('Computed') and len(elems(l)) != len(before):
+            out = f'Value (RObj {type(l).__name__}) ListOp'           # the receiver itself came back, holding more / fewer values
+    if inplace and before is not None:
+        after = list(elems(l))
+        if (len(after) != len(before) or any(a is not b for a, b in zip(after, before))) and not out.startswith('Value (RObj'):
+            out, detail = 'Other:receiver-mutated', f"{detail}; the left operand now holds {len(after)} values (had {len(before)})"
+    return out, detail
 
 
 def expr(n, op, lk, rk):
@@ -222,7 +240,8 @@ def expr(n, op, lk, rk):
         if k in ('KFloat', 'KInt'): return {'KFloat': 'float', 'KInt': 'int'}[k]
         if k.startswith('KSeq'): return ('tuple' if 'true' in k else 'list') + '(%s numbers)' % k.split()[-1]
         return 'ndarray(' + ','.join(re.findall(r'\d+', k)) + (',)' if k.count(';') == 0 else ')')
-    return f"{nm(lk)} {SYM[op]} {nm(rk)} [{'single' if n == 1 else 'multi-valued(%d)' % n}]"
+    sym = SYM[op[:-1]] + '=' if op.endswith('=') else SYM[op]          # 'Mul=' is the in-place form  x *= y
+    return f"{nm(lk)} {sym} {nm(rk)} [{'single' if n == 1 else 'multi-valued(%d)' % n}]"
 
 
 # ------------------------------------------------------------------------------------------------ model table from Coq
@@ -299,11 +318,14 @@ def short(out):
     return out.replace('Value ', '').replace('(', '').replace(')', '').replace(' ', '-')
 
 
-def check_cell(ctx, key, tab, rng=None, tag='table'):
+def check_cell(ctx, key, tab, rng=None, tag='table', inplace=False):
     """observe one cell, compare with the model and with the documented table"""
     n, op, lk, rk = key
     mout, spec, cause = tab[key]
-    obs, detail = observe(n, op, lk, rk, rng)
+    obs, detail = observe(n, op, lk, rk, rng, inplace)
+    kop = op                     # operator name used in finding keys: 'Mul' for x * y, 'IMul' for x *= y
+    if inplace:
+        kop, op = 'I' + op, op + '='   # 'Mul=' in messages / replay cells
     ctx.case(key, nontrivial=(obs != 'Raise'))
     ctx.count(tag + ':observed:' + ('Value:' + obs.split(' ')[-1] if obs.startswith('Value') else obs))
     if spec.startswith('May') and obs == 'Raise':
@@ -320,12 +342,12 @@ def check_cell(ctx, key, tab, rng=None, tag='table'):
                 ctx.count(tag + ':cells:' + cause)
             else:
                 # model and implementation agree on a violating cell that no known root cause covers (also breaks C08_table)
-                ctx.fail(f'cell:{op}:{short(obs)}:{site}', f"{expr(n, op, lk, rk)} -> {obs}, documented: {spec}", replay)
+                ctx.fail(f'cell:{kop}:{short(obs)}:{site}', f"{expr(n, op, lk, rk)} -> {obs}, documented: {spec}", replay)
         return
     # implementation != model of the unchanged code
     ctx.corr['disagreements'] += 1
     if not ok:
-        ctx.fail(f'cell:{op}:{short(obs)}:{site}',
+        ctx.fail(f'cell:{kop}:{short(obs)}:{site}',
                  f"{expr(n, op, lk, rk)} -> {obs} ({detail}); documented: {spec}; the model of the unchanged code gives {mout}", replay)
     elif cause is not None:
         ctx.notes.append(f"known defect {cause} does not reproduce at {expr(n, op, lk, rk)}: observed {obs} (conforms)")
@@ -342,7 +364,7 @@ def check_cell(ctx, key, tab, rng=None, tag='table'):
         ctx.count('drift:undocumented-cell-raises')
     else:
         # a documented pair that returned its documented value now raises
-        ctx.fail(f'cell:{op}:documented-pair-now-raises:{site}',
+        ctx.fail(f'cell:{kop}:documented-pair-now-raises:{site}',
                  f"{expr(n, op, lk, rk)} raises ({detail}) although the documentation defines it ({spec}) and the unchanged code returned {mout}", replay)
 
 
@@ -368,7 +390,7 @@ def run(ctx):
                          "the transcription of the documented table (Model/C08_Ops.v: documented) from the property text and the docstrings"]
     if not prepare(ctx):
         return
-    for f in ('C08.v', 'C08_clauses.v', 'C08_mechanism.v', 'C08_sequences.v'):
+    for f in ('C08.v', 'C08_clauses.v', 'C08_mechanism.v', 'C08_sequences.v', 'C08_inplace.v'):
         ctx.prove('theories/Props/' + f)
     with ctx.timed('model-table'):
         tab = model_table(ctx)
@@ -401,6 +423,17 @@ def run(ctx):
         for _ in range(ctx.n(1, 4)):
             for key in seq:
                 check_cell(ctx, key, seq, ctx.rng, 'sequences-random-values')
+    # in-place operators  x op= y  over all operand kinds (objects, float, int, arrays, lists, tuples): the value x is rebound to must be
+    # the binary operator's cell, and the receiver must not be changed otherwise
+    with ctx.timed('model-table-inplace'):
+        inp = model_table(ctx, 'ireport H')
+    ctx.stats['cells-inplace'] = len(inp)
+    with ctx.timed('observe+compare-inplace'):
+        for key in inp:
+            check_cell(ctx, key, inp, None, 'inplace', inplace=True)
+        for _ in range(ctx.n(1, 4)):
+            for key in inp:
+                check_cell(ctx, key, inp, ctx.rng, 'inplace-random-values', inplace=True)
     ctx.corr['functions'] = 1
     nz = [k for k in keys if tab[k][0] != 'Raise']
     for k in nz[:: max(1, len(nz) // 10)]:
@@ -414,7 +447,8 @@ def replay(ctx, path):
         from lib.main import generic_replay
         import props.C08 as me
         return generic_replay(ctx, me, path)
-    obs, detail = observe(c['n'], c['op'], c['left'], c['right'], ctx.rng if rec['replay'].get('random_values') else None)
+    obs, detail = observe(c['n'], c['op'].rstrip('='), c['left'], c['right'], ctx.rng if rec['replay'].get('random_values') else None,
+                          inplace=c['op'].endswith('='))
     spec = rec['replay']['documented']
     print(f"{rec['replay']['expression']}: observed {obs} ({detail}); documented {spec}")
     if obs == rec['replay']['observed']:
